@@ -165,6 +165,15 @@ BUILT = {
             'Trusts vkit/oracles/coddington.py (planes, spheres, conics, even aspheres; 5e-6 of f + shift^2/f, margin > 20x) '
             'and the ABCD oracle; unseeded random spots are checked for count only.',
             'DESIGN.md §4 C12'),
+    'C14': ('history monitor on every optimiser front end: every objective evaluation logged by a wrapper on OptimizerGeneric._fun, end state compared with result.x / result.fun / start merit / bounds / pickups+solves, undo() against a snapshot, NaN failpoints, DE workers=-1 in subprocesses',
+            'Exploration: ~90 (quick) / ~3.7k (thorough) optimiser runs over OptimizerGeneric (default, L-BFGS-B, Nelder-Mead, '
+            'SLSQP), LeastSquares, DualAnnealing, DifferentialEvolution workers=1 and workers=-1 (3 repetitions each, '
+            'subprocess), CompensatorOptimizer, with optimise/undo sequences, pickups, solves and injected NaN operands; '
+            'plus merit-definition recomputation from the analysis API and set/get round trips and bound units for all '
+            'nine variable kinds.',
+            'The schedule quantifier is covered only by repeated multi-process runs (process interleavings cannot change '
+            'the parent-side state that is checked); mechanism keys require that scipy\'s (x, fun) pairs are logged evaluations.',
+            'DESIGN.md §4 C14'),
 }
 
 NOT_YET = {}
